@@ -52,6 +52,7 @@ import hashlib
 import logging
 import math
 import os
+import time
 import re
 
 import numpy as np
@@ -1129,7 +1130,15 @@ def cases(tier):
             seen.add(d)
             out.append({'base': base, 'key': key, 'tkey': tkey, 'fault': fault,
                         'ffam': family(fault), 'kf': _kf((tkey, fault))})
+            if base == 'A' and fault in REWRITE_FAULTS:
+                # the same faulty power file written over a GOOD one of the same name after a model was built from
+                # the good one in this process
+                out.append({'base': base, 'key': key, 'tkey': tkey, 'fault': fault, 'ffam': family(fault),
+                            'kf': _kf((tkey, fault)), 'prior': True})
     return out
+
+
+REWRITE_FAULTS = ('pf:neg-coeff', 'pf:nan-coeff', 'pf:drop-pin', 'pf:upper-short', 'pf:gap', 'pf:text-cell')
 
 
 DOUBLE_FAMILIES = ('zero', 'neg', 'tiny', 'huge', 'scale', 'relation', 'list',
@@ -1458,7 +1467,7 @@ def _final_values(r):
     return vals
 
 
-def execute(text, files):
+def execute(text, files, prior=None):
     """run the real pipeline on an input; -> dict(cls, kind, site, phase, ...)"""
     import dassh
     import tempfile
@@ -1476,10 +1485,25 @@ def execute(text, files):
     r = None
     snap = None
     try:
+        p = os.path.join(wd, 'input.txt')
+        if prior is not None:
+            # a good input of the same file names first: parsed and built, then overwritten
+            for k, v in prior[1].items():
+                with open(os.path.join(wd, k), 'w') as f:
+                    f.write(v)
+            with open(p, 'w') as f:
+                f.write(prior[0])
+            try:
+                dassh.Reactor(dassh.DASSH_Input(p), write_output=False)
+            except BaseException:
+                pass
+            _MON['dz_calls'] = 0
+            _MON['last_z'] = None
+            h.n, h.last = 0, None
+            time.sleep(0.02)      # a later modification time for the files written next
         for k, v in files.items():
             with open(os.path.join(wd, k), 'w') as f:
                 f.write(v)
-        p = os.path.join(wd, 'input.txt')
         with open(p, 'w') as f:
             f.write(text)
         try:
@@ -1590,7 +1614,7 @@ def run_case(c):
         return r
     text, files = m
     named = named_classes(c, text)
-    res = execute(text, files)
+    res = execute(text, files, prior=base_text(c['base']) if c.get('prior') else None)
     r['states'] = res['objs'] + res['steps']
     r['transitions'] = res['steps']
     r['traces'] = 1
